@@ -230,7 +230,10 @@ pub fn run_eval(o: &Opts) -> Report {
     for i in 0..ntree {
         let t = gen_tree(&mut r, &g, if i % 2 == 0 { 2 } else { 0 });
         let src = Render { r: &mut r, redundant: 0.1, ws: 0.1 }.expr(&t);
-        let x = r.uniform(-2.0, 2.0); let y = r.uniform(-2.0, 2.0);
+        // mostly interior points; now and then signed zeros, infinities, exact powers of two and huge/tiny magnitudes,
+        // where shortcuts such as x**0.5 -> sqrt(x) or exp(ln(a)*b) differ from the conventional evaluation
+        let special = [-0.0f64, 0.0, f64::INFINITY, f64::NEG_INFINITY, 1.0, -1.0, 0.5, 2.0, 4.0, 0.25, 1e300, -1e300, 1e-300, 5e-324];
+        let x = if r.chance(0.15) { *r.pick(&special) } else { r.uniform(-2.0, 2.0) }; let y = if r.chance(0.15) { *r.pick(&special) } else { r.uniform(-2.0, 2.0) };
         let dx = *r.pick(&tangents); let dy = *r.pick(&tangents);
         // contexts built in a random insertion order
         let order = r.below(6);
